@@ -121,11 +121,12 @@ pub fn hist_spec(id: &str, tier: &str) -> Option<(HistSpec, Info)> {
         stop_on_taint,
         nontrivial: nt,
         post: Post::None,
+        set_mode: false,
         panic_ops: match id {
             "C01" => vec!["insert", "remove", "remove_keep_tree", "remove_children", "retain", "clear", "entry*", "vacant*", "occupied*", "get", "get_mut", "get_key_value", "contains_key", "collect", "from_iter", "view_mut.set", "view_mut.remove", "iter"],
             "C02" => vec!["get_lpm", "get_lpm_prefix", "get_lpm_mut"],
             "C03" => vec!["iter*", "keys", "values*", "into_*", "ref_into_iter", "view_iter", "view_into_iter"],
-            "C09" => vec!["cover*", "get_spm*"],
+            "C09" => vec!["cover*", "get_spm*", "get_lpm*"],
             "C10" => vec!["children*", "into_children", "remove_children", "retain"],
             "C11" => vec!["view_at", "view_mut_at", "view_mut.split", "view_mut.left", "view_mut.right", "view.left", "view.right", "view_mut", "view.iter"],
             "C12" => vec!["view.find*", "view_mut.find*", "view.view_at", "view_mut.view_mut_at"],
@@ -325,6 +326,25 @@ pub fn parts(id: &str, tier: &str) -> Option<(Vec<Part>, Info)> {
             s2.label = if id == "C15" { "C15canon" } else { "C16canon" };
             v.push(Part::Hist(spec));
             v.push(Part::Hist(s2));
+        } else if id == "C10" {
+            let mut s2 = spec.clone();
+            s2.label = "C10retain";
+            let mut w = Weights::canonical();
+            w.insert = 60; w.retain = 30; w.remove = 4; w.entry = 6; w.clear = 0; w.from_iter = 0; w.collect = 0; w.clone_swap = 0;
+            w.get_mut = 0; w.lpm_mut = 0; w.iter_mut = 0; w.children_mut = 0; w.view_write = 0; w.view_iter = 0;
+            s2.weights = w;
+            s2.max_uni = 20;
+            s2.full_queries = false;
+            s2.focus = Focus::of(&[10, 4]);
+            s2.accept = vec!["C10", "C01:contents", "C04"];
+            let mut s3 = s2.clone();
+            s3.label = "C10bulk";
+            s3.weights.remove_children = 25;
+            s3.weights.keep_tree = 8;
+            s3.weights.retain = 20;
+            v.push(Part::Hist(spec));
+            v.push(Part::Hist(s2));
+            v.push(Part::Hist(s3));
         } else if id == "C20" {
             let mut s2 = spec.clone();
             s2.label = "C20inject";
@@ -345,6 +365,22 @@ pub fn parts(id: &str, tier: &str) -> Option<(Vec<Part>, Info)> {
             v.push(Part::Pair(p));
         } else {
             v.push(Part::Hist(spec));
+        }
+        if matches!(id, "C01" | "C02" | "C03" | "C04" | "C09" | "C10" | "C18" | "C20") {
+            // the same generated histories through the PrefixSet API
+            if let Some(Part::Hist(first)) = v.first() {
+                let mut s = first.clone();
+                s.set_mode = true;
+                s.label = match id {
+                    "C01" => "C01set", "C02" => "C02set", "C03" => "C03set", "C04" => "C04set",
+                    "C09" => "C09set", "C10" => "C10set", "C18" => "C18set", _ => "C20set",
+                };
+                s.cases = (s.cases / 2).max(20);
+                s.post = Post::None;
+                s.nontrivial = |e| ev_has(e, "live_ge3") && ev_has(e, "removed_hit");
+                s.panic_ops.push("set.*");
+                v.push(Part::Hist(s));
+            }
         }
         return Some((v, info));
     }
